@@ -14,6 +14,12 @@ RULE = ("for every corpus module: chunk trace of the real WriteTo, then failure 
         "(n, err, bytes delivered, writes after failure) and the implementation must satisfy the property oracle; non-trivial = distinct case with 0 < k < len")
 
 
+def facts(res, harness):
+    from . import regen
+    r = regen.gen_facts(harness)
+    return {"facts_regenerated_changed": r["facts_regenerated_changed"]}
+
+
 def gen(tier, rng, harness=None):
     n = int(C.run_lines([harness, "run"], ["wt.count"])[0])
     traces = C.run_lines([harness, "run"], ["wt.trace %d" % i for i in range(n)])
